@@ -210,7 +210,7 @@ def tableC04 : List (String × Rd String) := [
     -- `Empirical::new` sorts the data (empirical.rs:67-70)
     let sorted := (xs.toArray.qsort (fun a b => a < b)).toList
     pure (wrOutcome wrF (fun _ => true) (empiricalDraw fuelC04 sorted ws))),
-  ("hist.UnitPowerLaw", do  -- construct(alpha1); draw(w0); set_alpha(alpha2); draw(w1); invcdf(0.5): the caches are inlined in the model
+  ("drawhist.UnitPowerLaw", do  -- construct(alpha1); draw(w0); set_alpha(alpha2); draw(w1); invcdf(0.5): the caches are inlined in the model
     let _ ← Wire.next; let a1 ← rdF; let a2 ← rdF; let ws ← rdL rdN
     let d1 : Gen.UnitPowerLaw Float := { alpha := a1 }
     let w0 := ws.headD 0
